@@ -1,4 +1,4 @@
-import Op2Proofs.Lzh.EncOffset
+import Op2Proofs.Lzh.EncOffsetHi
 import Op2Proofs.Huff.M
 /-!
 # The encoder round trip (C04): what an independent encoder writes, the reference decoder reads back
